@@ -122,6 +122,9 @@ func (cr *caseRun) after() {
 	cr.collectDeliveries()
 	cr.snapshot()
 	cr.syncShadow()
+	if cr.profile == "c13" && cr.r.Chance(20) {
+		cr.statsViews()
+	}
 }
 
 // the generator's idea of which topics/channels exist follows the daemon (ephemeral
